@@ -1,6 +1,7 @@
 import RdfModel.Props.C12Wrap
 import RdfModel.Props.C12WrapTables
 import RdfModel.Props.C12WrapResolve
+import RdfModel.Props.C12WrapDrop
 #print axioms RdfModel.C12W.gen_shouldEscape_tables
 #print axioms RdfModel.C12W.gen_byte_classes
 #print axioms RdfModel.C12W.gen_escape_shape
@@ -32,3 +33,9 @@ import RdfModel.Props.C12WrapResolve
 #print axioms RdfModel.C12W.deviates_empty_base_path
 #print axioms RdfModel.C12W.deviates_chain_sticky
 #print axioms RdfModel.C12W.repaired_base_empty_query
+#print axioms RdfModel.C12W.dropFragment_spec_partial
+#print axioms RdfModel.C12W.dropFragment_fresh_partial
+#print axioms RdfModel.C12W.dropFragment_hist_partial
+#print axioms RdfModel.C12W.dropFragment_idempotent
+#print axioms RdfModel.C12W.dropFragment_clears
+#print axioms RdfModel.C12W.dropFragment_witness
